@@ -376,7 +376,7 @@ def native_reopen(ctx):
         if v:
             return True, path, f'program {name}: {d}'
         last = (False, path, f'{len(progs)} reopen programs agree with the reference map')
-    v, path, d = native_selfcompare(ctx)
+    v, path, d = native_selfcompare(ctx, sealed_filter_programs())
     if v:
         return v, path, d
     return last[0], last[1], last[2] + '; ' + d
